@@ -392,7 +392,7 @@ ASSUMPTIONS = {
             "a reachable cycle of ordinary (non-imported) units makes the verdict undetermined: only termination, coherence and flatten-null-with-issue are checked there",
             "an importer holding a stale library entry (file changed after it was cached) is only required to terminate and stay coherent"],
     "C15": ["issues cannot be constructed through the public API: one translation unit of the simulator reads the private issue header to enumerate rule values"],
-    "C18": ["the model is not edited after analysis (AnalyserModel documents that it caches a static model)",
+    "C18": ["after an analysis the equivalences are not edited until the next analysis (AnalyserModel documents that it caches a static model); components may be taken out of the model and put back, which leaves the connection graph as analysed",
             "libcellml, libxml2 2.13.9 and zlib run as real code; only the C++ allocator is simulated (layout flavour)",
             "the collision search models the key formula; each prediction is confirmed against the key the real method computed (hook H2)"],
 }
